@@ -4,7 +4,9 @@ package main
 // (one ammo line per call) + real `grpc` gun with a configured `timeout` under the real engine against the
 // examples/grpc/server target (with reflection) behind a scripted interceptor.
 //
-//	gcall <instances> <timeout-ms> <answlog> <n> {<call> <payload> <srv>}*n
+//	gcall <gun> <instances> <timeout-ms> <answlog> <n> {<call> <payload> <srv>}*n
+//	  gun      g: `grpc` gun, grpc/json provider, one ammo per call | s: `grpc/scenario` gun + provider, the calls are the
+//	           steps of ONE scenario that is run <instances> times (shootStep has its own copy of the call code)
 //	  call     h (target.TargetService.Hello) | x (a method the target does not have)
 //	  payload  ok | bad (does not fit the input message)
 //	  srv      what the target does with this call:
@@ -70,6 +72,7 @@ func gcallSetup() {
 
 func runGcall(t *tokens) string {
 	gcallSetup()
+	gunKind := t.next()
 	inst := t.num()
 	timeoutMs := t.num()
 	answ := t.next()
@@ -129,23 +132,36 @@ func runGcall(t *tokens) string {
 
 	no := atomic.AddInt64(&gcallNo, 1)
 	path := fmt.Sprintf("/gcall-%d.payload", no)
-	var b strings.Builder
-	for i, s := range steps {
-		call := "target.TargetService.Hello"
-		if s.call == "x" {
-			call = "target.TargetService.NoSuchMethod"
+	ammoConf := map[string]any{"type": "grpc/json", "file": path, "limit": len(steps)}
+	gunType, tokens := "grpc", len(steps)
+	if gunKind == "s" {
+		var hs []gscnStep
+		for _, s := range steps {
+			hs = append(hs, gscnStep{s.call, s.payload, s.srv, "-"})
 		}
-		payload := map[string]any{"name": fmt.Sprintf("s%d", i)}
-		if s.payload == "bad" {
-			payload["nosuchfield"] = map[string]any{"a": []any{1, 2}}
+		path = fmt.Sprintf("/gcall-%d.hcl", no)
+		_ = afero.WriteFile(fs, path, []byte(gscnHCL(hs)), 0o644)
+		ammoConf = map[string]any{"type": "grpc/scenario", "file": path}
+		gunType, tokens = "grpc/scenario", inst
+	} else {
+		var b strings.Builder
+		for i, s := range steps {
+			call := "target.TargetService.Hello"
+			if s.call == "x" {
+				call = "target.TargetService.NoSuchMethod"
+			}
+			payload := map[string]any{"name": fmt.Sprintf("s%d", i)}
+			if s.payload == "bad" {
+				payload["nosuchfield"] = map[string]any{"a": []any{1, 2}}
+			}
+			line, _ := json.Marshal(map[string]any{"tag": fmt.Sprintf("t%d", i), "call": call, "payload": payload})
+			b.Write(line)
+			b.WriteByte('\n')
 		}
-		line, _ := json.Marshal(map[string]any{"tag": fmt.Sprintf("t%d", i), "call": call, "payload": payload})
-		b.Write(line)
-		b.WriteByte('\n')
+		_ = afero.WriteFile(fs, path, []byte(b.String()), 0o644)
 	}
-	_ = afero.WriteFile(fs, path, []byte(b.String()), 0o644)
 	defer fs.Remove(path)
-	gun := map[string]any{"type": "grpc", "target": ln.Addr().String(), "tls": false, "timeout": fmt.Sprintf("%dms", timeoutMs)}
+	gun := map[string]any{"type": gunType, "target": ln.Addr().String(), "tls": false, "timeout": fmt.Sprintf("%dms", timeoutMs)}
 	if answ != "-" {
 		answPath := fmt.Sprintf("%s/hC19-answ-gcall-%d-%d.log", strings.TrimRight(tempDir(), "/"), os.Getpid(), no)
 		defer removeFile(answPath)
@@ -153,11 +169,11 @@ func runGcall(t *tokens) string {
 	}
 	pool := map[string]any{
 		"id":               fmt.Sprintf("gc%d", no),
-		"ammo":             map[string]any{"type": "grpc/json", "file": path, "limit": len(steps)},
+		"ammo":             ammoConf,
 		"result":           map[string]any{"type": "discard"},
 		"gun":              gun,
 		"rps-per-instance": false,
-		"rps":              []any{map[string]any{"type": "once", "times": len(steps)}},
+		"rps":              []any{map[string]any{"type": "once", "times": tokens}},
 		"startup":          []any{map[string]any{"type": "once", "times": inst}},
 	}
 	conf := cli.DefaultConfig()
@@ -212,7 +228,8 @@ func genGcall(r *vh.Rand) string {
 		timeout = r.PickInt([]int{1000, 1200, 1500})
 	}
 	inst := r.PickInt([]int{1, 1, 2, 3})
-	line := fmt.Sprintf("gcall %d %d %s %d", inst, timeout, r.Pick([]string{"-", "-", "all", "warning", "error"}), n)
+	gun := r.Pick([]string{"g", "g", "s"})
+	line := fmt.Sprintf("gcall %s %d %d %s %d", gun, inst, timeout, r.Pick([]string{"-", "-", "all", "warning", "error"}), n)
 	silentAt := r.Intn(n) // at least one call of every case is met with silence
 	for i := 0; i < n; i++ {
 		call, payload, srv := "h", "ok", ""
